@@ -1,31 +1,35 @@
 ---------------------------- MODULE QueryGlob_Trace ----------------------------
 (* Judge of recorded parse_match() observations.
-   Tr[1] = {tid:-1, i:0, ev:"universe", pkgs:[{cat,pkg,ver,slot,sub,repo : [chars]}]}
+   {tid, i:0, ev:"universe" (sets the universe for the following events), pkgs:[{cat,pkg,ver,slot,sub,repo : [chars]}]}
    other  = {tid, i, ev:"query", text:[chars], raised:BOOL, sel:[BOOL per package of the universe]}
    Clauses: RejectBlocker (a text with "!" was accepted), Accept (an in-grammar query was refused),
    Extra_<field> (a selected package whose <field> does not satisfy the query), Missing (a matching
    package was not selected).  Informational: "~unspec" (text outside the specified grammar,
    counted, not judged), "~reject", "~query".                                                 *)
 EXTENDS QueryGlob, TraceLib
-VARIABLE l
-H == Tr[1]
-UPk == [k \in DOMAIN H.pkgs |-> [cat |-> H.pkgs[k].cat, pkg |-> H.pkgs[k].pkg, ver |-> ParseVer(H.pkgs[k].ver),
-                                 slot |-> H.pkgs[k].slot, sub |-> H.pkgs[k].sub, repo |-> H.pkgs[k].repo]]
-UniverseOK == \A k \in DOMAIN UPk : UPk[k].ver.ok /\ PlainVer(UPk[k].ver)
-Judge(e) ==
+VARIABLES l, uni
+AsUniverse(e) == [k \in DOMAIN e.pkgs |-> [cat |-> e.pkgs[k].cat, pkg |-> e.pkgs[k].pkg, ver |-> ParseVer(e.pkgs[k].ver),
+                                          slot |-> e.pkgs[k].slot, sub |-> e.pkgs[k].sub, repo |-> e.pkgs[k].repo]]
+UniverseOK(u) == \A k \in DOMAIN u : u[k].ver.ok /\ PlainVer(u[k].ver)
+Judge(e, u) ==
     LET q == ParseQ(e.text) IN
-    IF ~UniverseOK THEN {"OutsideDomain"}
-    ELSE IF q.kind = "reject" THEN {"~reject"} \cup (IF e.raised THEN {} ELSE {"RejectBlocker"})
+    IF q.kind = "reject" THEN {"~reject"} \cup (IF e.raised THEN {} ELSE {"RejectBlocker"})
     ELSE IF q.kind = "unspec" THEN {"~unspec"}
     ELSE IF e.raised THEN {"~query", "Accept"}
-    ELSE LET extra == {k \in DOMAIN UPk : e.sel[k] /\ ~Selects(q, UPk[k])}
-             missing == {k \in DOMAIN UPk : ~e.sel[k] /\ Selects(q, UPk[k])}
-         IN {"~query"} \cup {"Extra_" \o f : f \in UNION {FieldFails(q, UPk[k]) : k \in extra}}
+    ELSE LET ff == [k \in DOMAIN u |-> FieldFails(q, u[k])]      \* Selects(q, u[k]) <=> ff[k] = {}
+             extra == {k \in DOMAIN u : e.sel[k] /\ ff[k] # {}}
+             missing == {k \in DOMAIN u : ~e.sel[k] /\ ff[k] = {}}
+         IN {"~query"} \cup {"Extra_" \o f : f \in UNION {ff[k] : k \in extra}}
             \cup (IF missing = {} THEN {} ELSE {"Missing"})
-TraceInit == l = 1
+TraceInit == l = 0 /\ uni = <<>>
 TraceNext == /\ l < Len(Tr)
              /\ l' = l + 1
-             /\ Report(Tr[l'].tid, Tr[l'].i, Judge(Tr[l']))
+             /\ LET e == Tr[l'] IN
+                IF e.ev = "universe"
+                THEN /\ uni' = AsUniverse(e)
+                     /\ Report(e.tid, e.i, IF UniverseOK(uni') THEN {} ELSE {"OutsideDomain"})
+                ELSE /\ uni' = uni
+                     /\ Report(e.tid, e.i, IF Len(e.sel) = Len(uni) THEN Judge(e, uni) ELSE {"OutsideDomain"})
              /\ EndMark(l')
-TraceSpec == TraceInit /\ [][TraceNext]_l
+TraceSpec == TraceInit /\ [][TraceNext]_<<l, uni>>
 =========================================================================
